@@ -530,22 +530,37 @@ func jsonKeyCrossCheck(r *Report, tpkg *types.Package, info *types.Info, files [
 // key) and becomes that command's slot field.
 func groupedBySlot(call *ssa.Call) bool {
 	lookup, update, ksField := false, false, false
-	for _, u := range Uses(call) {
-		switch x := u.(type) {
-		case *ssa.Lookup:
-			if x.Index == ssa.Value(call) {
-				lookup = true
-			}
-		case *ssa.MapUpdate:
-			if x.Key == ssa.Value(call) {
-				update = true
-			}
-		case *ssa.Store:
-			if _, f, _, ok := FieldRef(x.Addr); ok && f == "ks" && x.Val == ssa.Value(call) {
-				ksField = true
+	var scan func(v ssa.Value, depth int)
+	scan = func(v ssa.Value, depth int) {
+		for _, u := range Uses(v) {
+			switch x := u.(type) {
+			case *ssa.Lookup:
+				if x.Index == v {
+					lookup = true
+				}
+			case *ssa.MapUpdate:
+				if x.Key == v {
+					update = true
+				}
+			case *ssa.Store:
+				if _, f, _, ok := FieldRef(x.Addr); ok && f == "ks" && x.Val == v {
+					ksField = true
+				}
+			case *ssa.Call:
+				// the grouping may live in an unexported helper of the package that receives the slot
+				callee := x.Common().StaticCallee()
+				if depth == 0 || callee == nil || callee.Blocks == nil || callee.Pkg != call.Parent().Pkg || isExportedName(callee.Name()) {
+					continue
+				}
+				for i, a := range x.Common().Args {
+					if a == v && i < len(callee.Params) {
+						scan(callee.Params[i], depth-1)
+					}
+				}
 			}
 		}
 	}
+	scan(call, 1)
 	return lookup && update && ksField
 }
 
